@@ -189,7 +189,7 @@ EXTRA7 = {
  "C11": " Also: a method of a command's payload is called only where the error that came with the command was found nil.",
  "C12": " Also: every string converted to rfc822.MIMEType is a constant, a mime.ParseMediaType result or lower-cased.",
  "C13": " Also: a size returned next to an io.MultiReader over byte slices equals, as a linear expression, the sum of the lengths of the parts.",
- "C14": " Also: no connector update is acknowledged as a no-op because two names are equal ignoring case (shared with C06).",
+ "C14": " Also: no connector update is acknowledged as a no-op because two names are equal ignoring case (shared with C06); a deleted subscription is listed only on the not-found outcome of a lookup of its name among the existing mailboxes (found and repaired a genuine defect, fix b40ae69).",
  "C16": " Also: no UID / SeqID is incremented in the 32-bit domain where message sets are resolved.",
  "C17": " Also: the room of a mailbox is measured only after the function's removals from that mailbox.",
 }
